@@ -19,6 +19,17 @@ from fractions import Fraction
 import numpy as np
 
 
+def _f64(v):
+    """numpy.random.Generator converts loc / scale / low / high to double before use; a
+    NumPy scalar or array of another dtype (float32, integers) must not drag the scripted
+    draw down to its own precision (NumPy 2 promotion keeps float32 against a Python float)."""
+    if isinstance(v, np.generic) and not isinstance(v, np.float64):
+        return np.float64(v)
+    if isinstance(v, np.ndarray) and v.dtype != np.float64 and v.dtype.kind in "fiub":
+        return v.astype(np.float64)
+    return v
+
+
 class ScriptedRNG:
     def __init__(self, seed, normal_bits=6, normal_range=3, uniform_bits=30, tape=None):
         """normal draws: k / 2^normal_bits with |k| <= normal_range * 2^normal_bits
@@ -81,7 +92,7 @@ class ScriptedRNG:
             shp = np.broadcast(np.asarray(loc), np.asarray(scale)).shape
             size = shp if shp != () else None
         z = self._fill(size, self._std_normal)
-        return loc + scale * z
+        return _f64(loc) + _f64(scale) * z
 
     def standard_normal(self, size=None):
         return self._fill(size, self._std_normal)
@@ -94,6 +105,7 @@ class ScriptedRNG:
             shp = np.broadcast(np.asarray(low), np.asarray(high)).shape
             size = shp if shp != () else None
         u = self._fill(size, self._uniform)
+        low, high = _f64(low), _f64(high)
         return low + (high - low) * u
 
     def exponential(self, scale=1.0, size=None):
